@@ -162,8 +162,8 @@ theorem tallyL_sum (c : ℕ) (labels rows : List ℕ) (h : ∀ r ∈ rows, label
       apply List.map_congr_left
       intro k _
       by_cases hk : (labels.getD r 0 == k) = true
-      · rw [List.filter_cons_of_pos hk, if_pos hk, List.length_cons]; omega
-      · rw [List.filter_cons_of_neg hk, if_neg hk]; omega
+      · rw [List.filter_cons, if_pos hk, if_pos hk, List.length_cons]; omega
+      · rw [List.filter_cons, if_neg hk, if_neg hk]; omega
     rw [e, List.sum_map_add, sum_range_ite, if_pos (h r List.mem_cons_self)]
     have := ih (fun r hr => h r (List.mem_cons_of_mem _ hr))
     unfold tallyL at this
@@ -226,14 +226,326 @@ theorem countSpec_eq (p : Prov.P) (labels : List ℕ) (dist : List ℚ) (c K i :
     (w wo : List ℕ) :
     countSpec p labels dist c K i bw bwo t w wo
       = ((allAssign p.nUnits).filter (fun a => a.getD i 0 == 0)).countP (ind p labels dist c K i bw bwo t w wo) := by
-  unfold countSpec ind
-  congr 1
-  funext a
   cases bw <;> cases bwo <;> rfl
 
 theorem knnValue_eq (p : Prov.P) (labels order : List ℕ) (util : List ℚ) (null : ℚ) (K c : ℕ) (a : List ℕ) :
     knnValue p labels order util null K c a
       = if ((sortedPresent p order a).take K).length < K then null
         else util.getD (argmaxFirst (tallyL c labels ((sortedPresent p order a).take K))) 0 := rfl
+
+/-! ### the boundary row is the `K`-th nearest present row -/
+
+theorem rowsLe_some_perm (p : Prov.P) (dist : List ℚ) (order a : List ℕ) (t : ℕ)
+    (hp : order.Perm (List.range p.data.length)) :
+    (rowsLe p dist a (some t)).Perm
+      ((sortedPresent p order a).filter (fun r => decide (dist.getD r 0 ≤ dist.getD t 0))) := by
+  have e : rowsLe p dist a (some t)
+      = (presentRows p a).filter (fun r => decide (dist.getD r 0 ≤ dist.getD t 0)) := by
+    unfold rowsLe
+    apply List.filter_congr
+    intro r _
+    simp
+  rw [e]
+  exact ((sortedPresent_perm p order a hp).symm).filter _
+
+theorem sel_some (p : Prov.P) (labels : List ℕ) (dist : List ℚ) (order : List ℕ) (c K : ℕ) (a : List ℕ)
+    (hK : 1 ≤ K) (hp : order.Perm (List.range p.data.length))
+    (hs : order.Pairwise (fun r s => dist.getD r 0 < dist.getD s 0))
+    (hlab : ∀ r < p.data.length, labels.getD r 0 < c) (G : List ℕ → ℚ) :
+    ((List.range p.data.length).map (fun t =>
+        if okB p a (some t) = true ∧ (tallyOf p labels dist c a (some t)).sum = K
+        then G (tallyOf p labels dist c a (some t)) else 0)).sum
+      = if K ≤ (presentRows p a).length then G (tallyL c labels ((sortedPresent p order a).take K)) else 0 := by
+  have hperm := sortedPresent_perm p order a hp
+  have hsorted := sortedPresent_sorted p dist order a hs
+  have ha : ((List.range p.data.length).map (fun t =>
+        if okB p a (some t) = true ∧ (tallyOf p labels dist c a (some t)).sum = K
+        then G (tallyOf p labels dist c a (some t)) else 0)).sum
+      = ((presentRows p a).map (fun t => if (tallyOf p labels dist c a (some t)).sum = K
+          then G (tallyOf p labels dist c a (some t)) else 0)).sum := by
+    rw [presentRows_eq, sum_map_filter]
+    apply congrArg List.sum
+    apply List.map_congr_left
+    intro t _
+    simp only [okB]
+    by_cases h : rowPresent p a t = true <;> simp [h]
+  rw [ha, ← (hperm.map _).sum_eq]
+  have hc : (sortedPresent p order a).map (fun t => if (tallyOf p labels dist c a (some t)).sum = K
+          then G (tallyOf p labels dist c a (some t)) else 0)
+      = (sortedPresent p order a).map (fun t =>
+          if ((sortedPresent p order a).filter (fun r => decide (dist.getD r 0 ≤ dist.getD t 0))).length = K
+          then G (tallyL c labels ((sortedPresent p order a).filter (fun r => decide (dist.getD r 0 ≤ dist.getD t 0))))
+          else 0) := by
+    apply List.map_congr_left
+    intro t _
+    have e1 : tallyOf p labels dist c a (some t)
+        = tallyL c labels ((sortedPresent p order a).filter (fun r => decide (dist.getD r 0 ≤ dist.getD t 0))) :=
+      tallyL_perm c labels (rowsLe_some_perm p dist order a t hp)
+    have e2 : (tallyL c labels ((sortedPresent p order a).filter
+        (fun r => decide (dist.getD r 0 ≤ dist.getD t 0)))).sum
+          = ((sortedPresent p order a).filter (fun r => decide (dist.getD r 0 ≤ dist.getD t 0))).length := by
+      apply tallyL_sum
+      intro r hr
+      have h1 : r ∈ presentRows p a := hperm.subset (List.mem_filter.mp hr).1
+      exact hlab r ((mem_presentRows p a r).mp h1).1
+    rw [e1, e2]
+  rw [hc, sum_sorted (fun r => dist.getD r 0) K hK (fun X => G (tallyL c labels X)) _ hsorted, hperm.length_eq]
+
+theorem tallyOf_none_sum (p : Prov.P) (labels : List ℕ) (dist : List ℚ) (c : ℕ) (a : List ℕ)
+    (hlab : ∀ r < p.data.length, labels.getD r 0 < c) :
+    (tallyOf p labels dist c a none).sum = (presentRows p a).length := by
+  have e : rowsLe p dist a none = presentRows p a := by
+    unfold rowsLe
+    rw [List.filter_eq_self]
+    intro r _; rfl
+  unfold tallyOf
+  rw [e]
+  apply tallyL_sum
+  intro r hr
+  exact hlab r ((mem_presentRows p a r).mp hr).1
+
+theorem sortedPresent_length (p : Prov.P) (order a : List ℕ) (hp : order.Perm (List.range p.data.length)) :
+    (sortedPresent p order a).length = (presentRows p a).length :=
+  (sortedPresent_perm p order a hp).length_eq
+
+/-- value of a coalition in terms of the number of present rows -/
+theorem knnValue_eq' (p : Prov.P) (labels order : List ℕ) (util : List ℚ) (null : ℚ) (K c : ℕ) (a : List ℕ)
+    (hp : order.Perm (List.range p.data.length)) :
+    knnValue p labels order util null K c a
+      = if K ≤ (presentRows p a).length
+        then util.getD (argmaxFirst (tallyL c labels ((sortedPresent p order a).take K))) 0 else null := by
+  rw [knnValue_eq, List.length_take, sortedPresent_length p order a hp]
+  by_cases h : K ≤ (presentRows p a).length
+  · rw [if_pos h, if_neg (by omega)]
+  · rw [if_neg h, if_pos (by omega)]
+
+/-! ### monotonicity of presence -/
+
+theorem getD_set_one (a : List ℕ) (i u : ℕ) (h : a.getD u 0 = 1) : (a.set i 1).getD u 0 = 1 := by
+  rw [List.getD_eq_getElem?_getD] at h ⊢
+  rw [List.getElem?_set]
+  by_cases hiu : i = u
+  · subst hiu
+    by_cases hl : i < a.length
+    · simp [hl]
+    · rw [List.getElem?_eq_none (by omega)] at h; simp at h
+  · rw [if_neg hiu]; exact h
+
+theorem rowPresent_mono (p : Prov.P) (a a' : List ℕ) (h : ∀ u, a.getD u 0 = 1 → a'.getD u 0 = 1) (r : ℕ)
+    (hr : rowPresent p a r = true) : rowPresent p a' r = true := by
+  unfold rowPresent at hr ⊢
+  rw [List.all_eq_true] at hr ⊢
+  intro u hu
+  have := hr u hu
+  simp only [beq_iff_eq] at this ⊢
+  exact h u this
+
+theorem presentRows_mono (p : Prov.P) (a a' : List ℕ) (h : ∀ u, a.getD u 0 = 1 → a'.getD u 0 = 1) :
+    (presentRows p a).Sublist (presentRows p a') := by
+  rw [presentRows_eq, presentRows_eq]
+  exact List.monotone_filter_right _ (fun r hr => rowPresent_mono p a a' h r hr)
+
+theorem presentRows_length_set (p : Prov.P) (a : List ℕ) (i : ℕ) :
+    (presentRows p a).length ≤ (presentRows p (a.set i 1)).length :=
+  (presentRows_mono p a _ (getD_set_one a i)).length_le
+
+/-! ### decoding domain vectors -/
+
+def vT (vec : List ℕ) : ℕ := vec.headD 0
+def vW (c : ℕ) (vec : List ℕ) : List ℕ := (vec.drop 1).take c
+def vWo (c : ℕ) (vec : List ℕ) : List ℕ := (vec.drop (1 + c)).take c
+
+theorem vW_enc (c t : ℕ) (w wo : List ℕ) (hw : w.length = c) : vW c (t :: (w ++ wo)) = w := by
+  simp [vW, ← hw]
+
+theorem vWo_enc (c t : ℕ) (w wo : List ℕ) (hw : w.length = c) (hwo : wo.length = c) :
+    vWo c (t :: (w ++ wo)) = wo := by
+  unfold vWo
+  rw [Nat.add_comm 1 c, List.drop_succ_cons, ← hw, List.drop_left, hw, ← hwo, List.take_length]
+
+theorem enc_dec (c : ℕ) (vec : List ℕ) (h : vec.length = 1 + 2 * c) : vec = vT vec :: (vW c vec ++ vWo c vec) := by
+  cases vec with
+  | nil => simp at h; omega
+  | cons t x =>
+    simp only [List.length_cons] at h
+    unfold vT vW vWo
+    simp only [List.headD_cons, Nat.add_comm 1 c, List.drop_succ_cons, List.drop_zero]
+    rw [List.take_of_length_le (l := x.drop c) (by simp; omega), List.take_append_drop]
+
+/-- `term` without the count -/
+def termUnit (n K c : ℕ) (utilJ : List ℚ) (nullJ : ℚ) (t2 : Option ℕ) (vec : List ℕ) : ℚ :=
+  if (vW c vec).sum != K || (t2.isSome && (vWo c vec).sum != K) || (t2.isNone && (vWo c vec).sum ≥ K) then 0
+  else
+    (1 / ((choose (n - 1) (vT vec) : ℕ) : ℚ)) *
+      (utilJ.getD (argmaxFirst (vW c vec)) 0 -
+        (match t2 with
+          | some _ => utilJ.getD (argmaxFirst (vWo c vec)) 0
+          | none => nullJ))
+
+theorem term_eq (n K c : ℕ) (utilJ : List ℚ) (nullJ : ℚ) (t2 : Option ℕ) (vec : List ℕ) (cnt : ℕ) :
+    term n K c utilJ nullJ t2 vec (cnt : ℤ) = (cnt : ℚ) * termUnit n K c utilJ nullJ t2 vec := by
+  unfold term termUnit vT vW vWo
+  rcases Nat.eq_zero_or_pos cnt with h0 | hpos
+  · subst h0; simp
+  · have hd : decide ((cnt : ℤ) ≤ 0) = false := by
+      rw [decide_eq_false_iff_not]; omega
+    simp only [hd, Bool.false_or]
+    split
+    · simp
+    · cases t2 <;> simp <;> ring
+
+/-! ### for a fixed coalition the sum over tallies collapses -/
+
+theorem capK_eq (K : ℕ) (l w : List ℕ) : capK K l = some w ↔ l.sum ≤ K ∧ l = w := by
+  unfold capK
+  by_cases h : l.sum ≤ K <;> simp [h]
+
+theorem ind_iff (p : Prov.P) (labels : List ℕ) (dist : List ℚ) (c K i : ℕ) (bw bwo : Option ℕ) (t : ℕ)
+    (w wo a : List ℕ) :
+    ind p labels dist c K i bw bwo t w wo a = true ↔
+      okB p (a.set i 1) bw = true ∧ okB p a bwo = true ∧ a.sum = t ∧
+        ((tallyOf p labels dist c (a.set i 1) bw).sum ≤ K ∧ tallyOf p labels dist c (a.set i 1) bw = w) ∧
+        ((tallyOf p labels dist c a bwo).sum ≤ K ∧ tallyOf p labels dist c a bwo = wo) := by
+  unfold ind
+  simp only [Bool.and_eq_true, beq_iff_eq, capK_eq, and_assoc]
+
+theorem tallyOf_length (p : Prov.P) (labels : List ℕ) (dist : List ℚ) (c : ℕ) (a : List ℕ) (b : Option ℕ) :
+    (tallyOf p labels dist c a b).length = c := tallyL_length _ _ _
+
+theorem vec_collapse (p : Prov.P) (labels : List ℕ) (dist : List ℚ) (c K i : ℕ) (t1 : ℕ) (t2 : Option ℕ)
+    (a : List ℕ) (g : List ℕ → ℚ) (ha : a.sum ≤ p.nUnits - 1) :
+    ((Dom.tally (p.nUnits - 1) K c).vecs.map (fun vec =>
+        (if ind p labels dist c K i (some t1) t2 (vT vec) (vW c vec) (vWo c vec) a = true then (1 : ℚ) else 0)
+          * g vec)).sum
+      = if okB p (a.set i 1) (some t1) = true ∧ okB p a t2 = true ∧
+            (tallyOf p labels dist c (a.set i 1) (some t1)).sum ≤ K ∧ (tallyOf p labels dist c a t2).sum ≤ K
+        then g (a.sum :: (tallyOf p labels dist c (a.set i 1) (some t1) ++ tallyOf p labels dist c a t2))
+        else 0 := by
+  set T1 := tallyOf p labels dist c (a.set i 1) (some t1) with hT1
+  set T2 := tallyOf p labels dist c a t2 with hT2
+  have l1 : T1.length = c := tallyOf_length _ _ _ _ _ _
+  have l2 : T2.length = c := tallyOf_length _ _ _ _ _ _
+  rw [sum_map_single _ (Dom.nodup_vecs _) (a.sum :: (T1 ++ T2))]
+  · have e3 : vW c (a.sum :: (T1 ++ T2)) = T1 := vW_enc c a.sum T1 T2 l1
+    have e4 : vWo c (a.sum :: (T1 ++ T2)) = T2 := vWo_enc c a.sum T1 T2 l1 l2
+    have e5 : vT (a.sum :: (T1 ++ T2)) = a.sum := rfl
+    have hmem : (a.sum :: (T1 ++ T2)) ∈ (Dom.tally (p.nUnits - 1) K c).vecs ↔ T1.sum ≤ K ∧ T2.sum ≤ K := by
+      rw [Dom.mem_vecs, Dom.ok_tally_iff]
+      have e1 := e3
+      have e2 := e4
+      unfold vW at e1
+      unfold vWo at e2
+      rw [e1, e2]
+      have hlen : (a.sum :: (T1 ++ T2)).length = 1 + 2 * c := by simp [l1, l2]; omega
+      constructor
+      · intro h; exact ⟨h.2.2.1, h.2.2.2⟩
+      · intro h; exact ⟨hlen, ha, h.1, h.2⟩
+    rw [e3, e4, e5]
+    by_cases hc : okB p (a.set i 1) (some t1) = true ∧ okB p a t2 = true ∧ T1.sum ≤ K ∧ T2.sum ≤ K
+    · rw [if_pos hc, if_pos (hmem.mpr hc.2.2),
+        if_pos ((ind_iff ..).mpr ⟨hc.1, hc.2.1, rfl, ⟨hc.2.2.1, rfl⟩, ⟨hc.2.2.2, rfl⟩⟩)]
+      ring
+    · rw [if_neg hc]
+      split
+      · rw [if_neg (fun h => hc (by
+          have h' := (ind_iff ..).mp h
+          exact ⟨h'.1, h'.2.1, h'.2.2.2.1.1, h'.2.2.2.2.1⟩))]
+        ring
+      · rfl
+  · intro vec hvec hne
+    have hlen : vec.length = 1 + 2 * c := ((Dom.ok_tally_iff _ _ _ _).mp ((Dom.mem_vecs _ _).mp hvec)).1
+    have : ¬ ind p labels dist c K i (some t1) t2 (vT vec) (vW c vec) (vWo c vec) a = true := by
+      rw [ind_iff]
+      intro h
+      apply hne
+      rw [enc_dec c vec hlen, ← h.2.2.1, ← h.2.2.2.1.2, ← h.2.2.2.2.2]
+    rw [if_neg this]; ring
+
+/-! ### contribution of one coalition -/
+
+theorem termUnit_some (n K c : ℕ) (utilJ : List ℚ) (nullJ : ℚ) (t : ℕ) (vec : List ℕ) :
+    termUnit n K c utilJ nullJ (some t) vec
+      = if (vW c vec).sum = K ∧ (vWo c vec).sum = K
+        then (1 / ((choose (n - 1) (vT vec) : ℕ) : ℚ)) *
+          (utilJ.getD (argmaxFirst (vW c vec)) 0 - utilJ.getD (argmaxFirst (vWo c vec)) 0)
+        else 0 := by
+  unfold termUnit
+  by_cases h1 : (vW c vec).sum = K <;> by_cases h2 : (vWo c vec).sum = K <;> simp [h1, h2]
+
+theorem termUnit_none (n K c : ℕ) (utilJ : List ℚ) (nullJ : ℚ) (vec : List ℕ) :
+    termUnit n K c utilJ nullJ none vec
+      = if (vW c vec).sum = K ∧ (vWo c vec).sum < K
+        then (1 / ((choose (n - 1) (vT vec) : ℕ) : ℚ)) * (utilJ.getD (argmaxFirst (vW c vec)) 0 - nullJ)
+        else 0 := by
+  unfold termUnit
+  by_cases h1 : (vW c vec).sum = K <;> by_cases h2 : (vWo c vec).sum < K <;> simp [h1, h2]
+  all_goals (intros; omega)
+
+theorem sum_pairs {α β : Type} (l1 : List α) (l2 : List β) (x x' : α → ℚ) (y y' : β → ℚ) (w : ℚ) :
+    ((l1.flatMap (fun s => l2.map (fun t => (s, t)))).map
+        (fun tp => w * (x tp.1 * y tp.2 - x' tp.1 * y' tp.2))).sum
+      = w * ((l1.map x).sum * (l2.map y).sum - (l1.map x').sum * (l2.map y').sum) := by
+  have inner : ∀ s : α, ((l2.map (fun t => (s, t))).map
+        (fun tp => w * (x tp.1 * y tp.2 - x' tp.1 * y' tp.2))).sum
+      = w * (x s * (l2.map y).sum - x' s * (l2.map y').sum) := by
+    intro s
+    induction l2 with
+    | nil => simp
+    | cons t l2 ih =>
+      simp only [List.map_cons, List.sum_cons] at ih ⊢
+      rw [ih]; ring
+  induction l1 with
+  | nil => simp
+  | cons s l1 ih =>
+    rw [List.flatMap_cons, List.map_append, List.sum_append, ih, inner]
+    simp only [List.map_cons, List.sum_cons]
+    ring
+
+/-- the value the loop adds for the boundary pair `(t1, t2)` and the coalition `a` after the sum over
+tallies has collapsed -/
+def pairTerm (p : Prov.P) (labels : List ℕ) (dist : List ℚ) (utilJ : List ℚ) (nullJ : ℚ) (c K i : ℕ)
+    (a : List ℕ) (tp : ℕ × Option ℕ) : ℚ :=
+  if okB p (a.set i 1) (some tp.1) = true ∧ okB p a tp.2 = true ∧
+      (tallyOf p labels dist c (a.set i 1) (some tp.1)).sum ≤ K ∧ (tallyOf p labels dist c a tp.2).sum ≤ K
+  then termUnit p.nUnits K c utilJ nullJ tp.2
+    (a.sum :: (tallyOf p labels dist c (a.set i 1) (some tp.1) ++ tallyOf p labels dist c a tp.2))
+  else 0
+
+def selB (p : Prov.P) (labels : List ℕ) (dist : List ℚ) (c K : ℕ) (a : List ℕ) (G : List ℕ → ℚ) (nl : ℚ) :
+    Option ℕ → ℚ
+  | some t => if okB p a (some t) = true ∧ (tallyOf p labels dist c a (some t)).sum = K
+      then G (tallyOf p labels dist c a (some t)) else 0
+  | none => if (tallyOf p labels dist c a none).sum < K then nl else 0
+
+theorem pairTerm_factor (p : Prov.P) (labels : List ℕ) (dist : List ℚ) (utilJ : List ℚ) (nullJ : ℚ) (c K i : ℕ)
+    (a : List ℕ) (tp : ℕ × Option ℕ) :
+    pairTerm p labels dist utilJ nullJ c K i a tp
+      = (1 / ((choose (p.nUnits - 1) a.sum : ℕ) : ℚ)) *
+        (selB p labels dist c K (a.set i 1) (fun T => utilJ.getD (argmaxFirst T) 0) 0 (some tp.1)
+            * selB p labels dist c K a (fun _ => 1) 1 tp.2
+          - selB p labels dist c K (a.set i 1) (fun _ => 1) 0 (some tp.1)
+            * selB p labels dist c K a (fun T => utilJ.getD (argmaxFirst T) 0) nullJ tp.2) := by
+  obtain ⟨t1, t2⟩ := tp
+  unfold pairTerm
+  simp only
+  set T1 := tallyOf p labels dist c (a.set i 1) (some t1) with hT1
+  set T2 := tallyOf p labels dist c a t2 with hT2
+  have l1 : T1.length = c := tallyOf_length _ _ _ _ _ _
+  have l2 : T2.length = c := tallyOf_length _ _ _ _ _ _
+  have e3 : vW c (a.sum :: (T1 ++ T2)) = T1 := vW_enc c a.sum T1 T2 l1
+  have e4 : vWo c (a.sum :: (T1 ++ T2)) = T2 := vWo_enc c a.sum T1 T2 l1 l2
+  have e5 : vT (a.sum :: (T1 ++ T2)) = a.sum := rfl
+  cases t2 with
+  | none =>
+    rw [termUnit_none, e3, e4, e5]
+    simp only [selB, ← hT1, ← hT2, okB]
+    by_cases h1 : rowPresent p (a.set i 1) t1 = true <;> by_cases h3 : T1.sum = K <;>
+      by_cases h4 : T2.sum < K <;> simp [h1, h3, h4]
+    all_goals (intros; omega)
+  | some t2 =>
+    rw [termUnit_some, e3, e4, e5]
+    simp only [selB, ← hT1, ← hT2, okB]
+    by_cases h1 : rowPresent p (a.set i 1) t1 = true <;> by_cases h2 : rowPresent p a t2 = true <;>
+      by_cases h3 : T1.sum = K <;> by_cases h4 : T2.sum = K <;> simp [h1, h2, h3, h4]
 
 end AddPath
